@@ -766,17 +766,36 @@ func (c *ctx) probeSignatures(names []string, withSig map[string]bool) {
 		if nondeterministic[fn] {
 			continue
 		}
-		found := 0
+		var okCands []string
 		for _, cand := range cands {
 			args := make([]string, len(cand))
 			for i := range cand {
 				args[i] = probe[cand[i]]
 			}
 			if _, err := c.pr.Query("SELECT " + fn + "(" + strings.Join(args, ", ") + ") FROM one"); err == nil {
+				okCands = append(okCands, cand)
+			}
+		}
+		// keep, per arity, one signature per first-argument type (a datetime, a string, an integer, a float): the
+		// functions convert their arguments, so most type vectors are accepted and the first ones found would all
+		// start with the same type
+		kept := map[string]bool{}
+		perArity := map[int]int{}
+		for _, first := range "DSNF" {
+			for _, cand := range okCands {
+				if len(cand) > 0 && rune(cand[0]) != first {
+					continue
+				}
+				key := fmt.Sprintf("%d%c", len(cand), first)
+				if kept[key] || perArity[len(cand)] >= 4 {
+					continue
+				}
+				// prefer a vector whose later arguments differ from the first (e.g. DS, DN) over DDD
+				kept[key] = true
+				perArity[len(cand)]++
 				c.sigs = append(c.sigs, sig{fn, cand})
 				withSig[fn] = true
-				found++
-				if found >= 6 {
+				if len(cand) == 0 {
 					break
 				}
 			}
